@@ -71,7 +71,7 @@ theorem wireSupplier_eq (items : List Item) (t : Ty) :
 
 def kItemSup (t : Ty) : KItem → Option (Nat × List Ty)
   | .provide f => if f.result = t then some (f.name, f.params) else none
-  | .bindProvide i f => if f.result = t ∨ t = .iface i then some (f.name, f.params) else none
+  | .bindProvide is f => if f.result = t ∨ t ∈ is.map Ty.iface then some (f.name, f.params) else none
 
 theorem kSupplier_eq (ks : List KItem) (t : Ty) :
     kSupplier ks t = ks.findSome? (kItemSup t) := by
@@ -117,68 +117,251 @@ theorem wireBinding_named {items : List Item} {t : Ty} {n : Nat} (h : tyName t =
     wireBinding items t = none := by
   cases t <;> simp [tyName] at h <;> rfl
 
-/-! ### the migration fold -/
+/-! ### the migration recursion -/
 
-def migStep (g : Item → Option (List KItem)) (acc : Option (List KItem)) (it : Item) : Option (List KItem) :=
-  match acc, g it with
-  | some l, some k => some (l ++ k)
-  | _, _ => none
+theorem migrateFrom_cons_some {c : Cfg} {i : Nat} {a : Item} {r : List Item} {ks : List KItem}
+    (h : migrateFrom c i (a :: r) = some ks) :
+    ∃ ka lr, migrateItem c i a = some ka ∧ migrateFrom c (i + 1) r = some lr ∧ ks = ka ++ lr := by
+  rw [migrateFrom] at h
+  cases hga : migrateItem c i a with
+  | none => simp [hga] at h
+  | some ka =>
+    cases hr : migrateFrom c (i + 1) r with
+    | none => simp [hga, hr] at h
+    | some lr =>
+      simp only [hga, hr, Option.some.injEq] at h
+      exact ⟨ka, lr, rfl, rfl, h.symm⟩
 
-theorem migrate_eq (c : Cfg) : migrate c = c.items.foldl (migStep (migrateItem c)) (some []) := rfl
+theorem migrateFrom_mem (c : Cfg) : ∀ (l : List Item) (i : Nat) (ks : List KItem), migrateFrom c i l = some ks →
+    ∀ k, k ∈ ks ↔ ∃ j it out, l[j]? = some it ∧ migrateItem c (i + j) it = some out ∧ k ∈ out := by
+  intro l
+  induction l with
+  | nil =>
+    intro i ks h k
+    simp only [migrateFrom, Option.some.injEq] at h
+    subst h; simp
+  | cons a r ih =>
+    intro i ks h k
+    obtain ⟨ka, lr, hga, hr, rfl⟩ := migrateFrom_cons_some h
+    rw [List.mem_append, ih _ _ hr k]
+    constructor
+    · rintro (h1 | ⟨j, it, out, hj, ho, hk⟩)
+      · exact ⟨0, a, ka, by simp, by simpa using hga, h1⟩
+      · refine ⟨j + 1, it, out, by simpa using hj, ?_, hk⟩
+        rw [← ho]; congr 1; omega
+    · rintro ⟨j, it, out, hj, ho, hk⟩
+      cases j with
+      | zero =>
+        simp only [List.getElem?_cons_zero, Option.some.injEq] at hj; subst hj
+        rw [Nat.add_zero, hga] at ho; cases ho; exact Or.inl hk
+      | succ j =>
+        refine Or.inr ⟨j, it, out, by simpa using hj, ?_, hk⟩
+        rw [← ho]; congr 1; omega
 
-theorem foldl_migStep_none (g) (items : List Item) : items.foldl (migStep g) none = none := by
-  induction items with
-  | nil => rfl
-  | cons a l ih => simpa [List.foldl_cons, migStep] using ih
+theorem migrateFrom_some (c : Cfg) : ∀ (l : List Item) (i : Nat),
+    (∀ j it, l[j]? = some it → (migrateItem c (i + j) it).isSome) → (migrateFrom c i l).isSome := by
+  intro l
+  induction l with
+  | nil => intro i _; rfl
+  | cons a r ih =>
+    intro i h
+    have ha := h 0 a (by simp)
+    have hr := ih (i + 1) (fun j it hj => by
+      have := h (j + 1) it (by simpa using hj)
+      rwa [show i + (j + 1) = i + 1 + j by omega] at this)
+    rw [Nat.add_zero] at ha
+    obtain ⟨ka, hka⟩ := Option.isSome_iff_exists.1 ha
+    obtain ⟨lr, hlr⟩ := Option.isSome_iff_exists.1 hr
+    rw [migrateFrom, hka, hlr]; rfl
 
-theorem foldl_migStep_mem (g) (items : List Item) : ∀ (acc ks : List KItem),
-    items.foldl (migStep g) (some acc) = some ks →
-    ∀ k, k ∈ ks ↔ (k ∈ acc ∨ ∃ it ∈ items, ∃ l, g it = some l ∧ k ∈ l) := by
-  induction items with
-  | nil => intro acc ks h k; simp at h; subst h; simp
-  | cons a l ih =>
-    intro acc ks h k
-    rw [List.foldl_cons] at h
-    cases hga : g a with
-    | none =>
-      have : migStep g (some acc) a = none := by simp [migStep, hga]
-      rw [this, foldl_migStep_none] at h; cases h
-    | some la =>
-      have : migStep g (some acc) a = some (acc ++ la) := by simp [migStep, hga]
-      rw [this] at h
-      rw [ih _ _ h k, List.mem_append]
-      constructor
-      · rintro (h1 | ⟨it, hit, l', hl', hk⟩)
-        · rcases h1 with h1 | h1
-          · exact Or.inl h1
-          · exact Or.inr ⟨a, List.mem_cons_self .., la, hga, h1⟩
-        · exact Or.inr ⟨it, List.mem_cons_of_mem _ hit, l', hl', hk⟩
-      · rintro (h1 | ⟨it, hit, l', hl', hk⟩)
-        · exact Or.inl (Or.inl h1)
-        · rcases List.mem_cons.1 hit with rfl | hit
-          · rw [hga] at hl'; cases hl'; exact Or.inl (Or.inr hk)
-          · exact Or.inr ⟨it, hit, l', hl', hk⟩
-
-theorem foldl_migStep_some (g) (items : List Item) : ∀ (acc : List KItem),
-    (∀ it ∈ items, (g it).isSome) → (items.foldl (migStep g) (some acc)).isSome := by
-  induction items with
-  | nil => intro acc _; rfl
-  | cons a l ih =>
-    intro acc h
-    rw [List.foldl_cons]
-    have ha := h a (List.mem_cons_self ..)
-    cases hga : g a with
-    | none => rw [hga] at ha; cases ha
-    | some la =>
-      have : migStep g (some acc) a = some (acc ++ la) := by simp [migStep, hga]
-      rw [this]
-      exact ih _ (fun it hit => h it (List.mem_cons_of_mem _ hit))
+/-- the migrated items in item order: pairwise statements reduce to statements about the outputs of two positions -/
+theorem migrateFrom_pairwise (c : Cfg) (R : KItem → KItem → Prop) : ∀ (l : List Item) (i : Nat) (ks : List KItem),
+    migrateFrom c i l = some ks →
+    (∀ j it out, l[j]? = some it → migrateItem c (i + j) it = some out → out.Pairwise R) →
+    (∀ j j' it it' out out', j < j' → l[j]? = some it → l[j']? = some it' →
+       migrateItem c (i + j) it = some out → migrateItem c (i + j') it' = some out' → ∀ a ∈ out, ∀ b ∈ out', R a b) →
+    ks.Pairwise R := by
+  intro l
+  induction l with
+  | nil =>
+    intro i ks h _ _
+    simp only [migrateFrom, Option.some.injEq] at h
+    subst h; exact List.Pairwise.nil
+  | cons a r ih =>
+    intro i ks h hin hcross
+    obtain ⟨ka, lr, hga, hr, rfl⟩ := migrateFrom_cons_some h
+    rw [List.pairwise_append]
+    refine ⟨hin 0 a ka (by simp) (by simpa using hga), ?_, ?_⟩
+    · apply ih (i + 1) lr hr
+      · intro j it out hj ho
+        exact hin (j + 1) it out (by simpa using hj) (by rw [← ho]; congr 1; omega)
+      · intro j j' it it' out out' hjj hj hj' ho ho'
+        exact hcross (j + 1) (j' + 1) it it' out out' (by omega) (by simpa using hj) (by simpa using hj')
+          (by rw [← ho]; congr 1; omega) (by rw [← ho']; congr 1; omega)
+    · intro x hx y hy
+      obtain ⟨j, it, out, hj, ho, hk⟩ := (migrateFrom_mem c r (i + 1) lr hr y).1 hy
+      exact hcross 0 (j + 1) a it ka out (by omega) (by simp) (by simpa using hj) (by simpa using hga)
+        (by rw [← ho]; congr 1; omega) x hx y hk
 
 theorem migrate_mem {c : Cfg} {ks : List KItem} (hm : migrate c = some ks) (k : KItem) :
-    k ∈ ks ↔ ∃ it ∈ c.items, ∃ l, migrateItem c it = some l ∧ k ∈ l := by
-  rw [migrate_eq] at hm
-  have := foldl_migStep_mem _ _ _ _ hm k
+    k ∈ ks ↔ ∃ j it out, c.items[j]? = some it ∧ migrateItem c j it = some out ∧ k ∈ out := by
+  have := migrateFrom_mem c c.items 0 ks hm k
   simpa using this
+
+theorem migrate_mem_intro {c : Cfg} {ks : List KItem} (hm : migrate c = some ks) {j : Nat} {it : Item}
+    {out : List KItem} {k : KItem} (hj : c.items[j]? = some it) (ho : migrateItem c j it = some out) (hk : k ∈ out) :
+    k ∈ ks :=
+  (migrate_mem hm k).2 ⟨j, it, out, hj, ho, hk⟩
+
+theorem mem_boundTypesIn {c : Cfg} {k : Nat} {t : Ty} :
+    t ∈ boundTypesIn c k ↔ ∃ j i, c.items[j]? = some (.bind i t) ∧ partOf c j = k := by
+  unfold boundTypesIn
+  rw [List.mem_filterMap]
+  constructor
+  · rintro ⟨⟨it, j⟩, hp, hs⟩
+    rw [List.mem_zipIdx_iff_getElem?] at hp
+    cases it with
+    | bind i impl =>
+      simp only at hs
+      split at hs
+      · rename_i hk; cases hs; exact ⟨j, i, hp, hk⟩
+      · cases hs
+    | _ => simp at hs
+  · rintro ⟨j, i, hj, hk⟩
+    exact ⟨(.bind i t, j), List.mem_zipIdx_iff_getElem?.2 hj, by simp [hk]⟩
+
+/-! ### several `Bind`s on one implementation in one element list: the first emits, the later ones are nested into it -/
+
+theorem mem_bindsOn {c : Cfg} {k : Nat} {impl : Ty} {i j : Nat} :
+    (i, j) ∈ bindsOn c k impl ↔ c.items[j]? = some (.bind i impl) ∧ partOf c j = k := by
+  unfold bindsOn
+  rw [List.mem_filterMap]
+  constructor
+  · rintro ⟨⟨it, j'⟩, hp, hs⟩
+    rw [List.mem_zipIdx_iff_getElem?] at hp
+    cases it with
+    | bind i' impl' =>
+      simp only at hs
+      split at hs
+      · rename_i hk
+        simp only [Option.some.injEq, Prod.mk.injEq] at hs
+        obtain ⟨rfl, rfl⟩ := hs
+        obtain ⟨rfl, hk⟩ := hk
+        exact ⟨hp, hk⟩
+      · cases hs
+    | _ => simp at hs
+  · rintro ⟨hj, hk⟩
+    exact ⟨(.bind i impl, j), List.mem_zipIdx_iff_getElem?.2 hj, by simp [hk]⟩
+
+theorem hasEarlierBind_iff {c : Cfg} {idx : Nat} {impl : Ty} :
+    hasEarlierBind c idx impl = true ↔
+      ∃ j y, j < idx ∧ c.items[j]? = some (.bind y impl) ∧ partOf c j = partOf c idx := by
+  unfold hasEarlierBind
+  rw [List.any_eq_true]
+  constructor
+  · rintro ⟨⟨y, j⟩, hm, hlt⟩
+    have := mem_bindsOn.1 hm
+    exact ⟨j, y, by simpa using hlt, this.1, this.2⟩
+  · rintro ⟨j, y, hlt, hj, hk⟩
+    exact ⟨(y, j), mem_bindsOn.2 ⟨hj, hk⟩, by simpa using hlt⟩
+
+theorem mem_laterIfaces {c : Cfg} {idx : Nat} {impl : Ty} {y : Nat} :
+    y ∈ laterIfaces c idx impl ↔
+      ∃ q, idx < q ∧ c.items[q]? = some (.bind y impl) ∧ partOf c q = partOf c idx := by
+  unfold laterIfaces
+  rw [List.mem_map]
+  constructor
+  · rintro ⟨⟨y', q⟩, hm, rfl⟩
+    rw [List.mem_filter] at hm
+    have := mem_bindsOn.1 hm.1
+    exact ⟨q, by simpa using hm.2, this.1, this.2⟩
+  · rintro ⟨q, hlt, hq, hk⟩
+    exact ⟨(y, q), List.mem_filter.2 ⟨mem_bindsOn.2 ⟨hq, hk⟩, by simpa using hlt⟩, rfl⟩
+
+theorem migrateItem_bind_later {c : Cfg} {idx x : Nat} {impl : Ty} (h : hasEarlierBind c idx impl = true) :
+    migrateItem c idx (.bind x impl) = some [] := by
+  simp [migrateItem, h]
+
+theorem migrateItem_bind_first {c : Cfg} {idx x n : Nat} {impl : Ty} {f : Func} (h : hasEarlierBind c idx impl = false)
+    (hn : tyName impl = some n) (hf : c.pkgFuncs.find? (fun f => f.name == ctorName n) = some f) :
+    migrateItem c idx (.bind x impl) = some [.bindProvide (x :: laterIfaces c idx impl) f] := by
+  simp [migrateItem, h, hn, hf]
+
+/-- a `Bind` that emits something is the first on its implementation in its element list -/
+theorem bind_emits_first {c : Cfg} {idx x : Nat} {impl : Ty} {out : List KItem} {a : KItem}
+    (ho : migrateItem c idx (.bind x impl) = some out) (ha : a ∈ out) : hasEarlierBind c idx impl = false := by
+  cases he : hasEarlierBind c idx impl with
+  | false => rfl
+  | true => rw [migrateItem_bind_later he] at ho; cases ho; cases ha
+
+theorem exists_min_nat (P : Nat → Prop) : ∀ n, P n → ∃ m, m ≤ n ∧ P m ∧ ∀ m', m' < m → ¬ P m' := by
+  intro n
+  induction n using Nat.strongRecOn with
+  | _ n ih =>
+    intro hn
+    by_cases h : ∃ m', m' < n ∧ P m'
+    · obtain ⟨m', hlt, hp⟩ := h
+      obtain ⟨m, hle, hpm, hmin⟩ := ih m' hlt hp
+      exact ⟨m, by omega, hpm, hmin⟩
+    · exact ⟨n, Nat.le_refl _, hn, fun m' hlt hp => h ⟨m', hlt, hp⟩⟩
+
+/-- the item a `Bind` ends up in: the one emitted at the first `Bind` on the same implementation in the same element list,
+    whose interface list contains the `Bind`'s interface -/
+theorem bind_emitted {c : Cfg} {idx x n : Nat} {impl : Ty} {f : Func} (h : c.items[idx]? = some (.bind x impl))
+    (hn : tyName impl = some n) (hf : c.pkgFuncs.find? (fun f => f.name == ctorName n) = some f) :
+    ∃ j0 x0 is, j0 ≤ idx ∧ c.items[j0]? = some (.bind x0 impl) ∧ partOf c j0 = partOf c idx ∧
+      migrateItem c j0 (.bind x0 impl) = some [.bindProvide is f] ∧ x ∈ is := by
+  obtain ⟨j0, hle, ⟨x0, hj0, hp0⟩, hmin⟩ :=
+    exists_min_nat (fun m => ∃ y, c.items[m]? = some (.bind y impl) ∧ partOf c m = partOf c idx) idx ⟨x, h, rfl⟩
+  have he : hasEarlierBind c j0 impl = false := by
+    cases he : hasEarlierBind c j0 impl with
+    | false => rfl
+    | true =>
+      obtain ⟨j, y, hlt, hj, hk⟩ := hasEarlierBind_iff.1 he
+      exact absurd ⟨y, hj, hk.trans hp0⟩ (hmin j hlt)
+  refine ⟨j0, x0, x0 :: laterIfaces c j0 impl, hle, hj0, hp0, migrateItem_bind_first he hn hf, ?_⟩
+  rcases Nat.lt_or_ge j0 idx with hlt | hge
+  · exact List.mem_cons_of_mem _ (mem_laterIfaces.2 ⟨idx, hlt, h, hp0.symm⟩)
+  · have : j0 = idx := by omega
+    subst this
+    rw [h] at hj0; cases hj0
+    exact List.mem_cons_self ..
+
+/-- two `Bind`s on one implementation in one element list: the later one emits nothing -/
+theorem no_two_emitters {c : Cfg} {j j' x x' : Nat} {impl : Ty} {out' : List KItem} {b : KItem}
+    (hj : c.items[j]? = some (.bind x impl)) (hlt : j < j') (hpart : partOf c j = partOf c j')
+    (ho' : migrateItem c j' (.bind x' impl) = some out') (hb : b ∈ out') : False := by
+  have h1 := bind_emits_first ho' hb
+  have h2 : hasEarlierBind c j' impl = true := hasEarlierBind_iff.2 ⟨j, x, hlt, hj, hpart⟩
+  rw [h1] at h2; cases h2
+
+/-! ### `parts = []`: one element list, the former meaning -/
+
+theorem partOf_nil_parts {c : Cfg} (h : c.parts = []) (i : Nat) : partOf c i = 0 := by
+  simp [partOf, h]
+
+/-- with `parts = []` the bound types seen by every item are those of **all** `Bind`s of the set -/
+theorem mem_boundTypesIn_nil_parts {c : Cfg} (h : c.parts = []) (i : Nat) (t : Ty) :
+    t ∈ boundTypesIn c (partOf c i) ↔ ∃ x, Item.bind x t ∈ c.items := by
+  rw [mem_boundTypesIn]
+  constructor
+  · rintro ⟨j, x, hj, _⟩; exact ⟨x, List.mem_of_getElem? hj⟩
+  · rintro ⟨x, hx⟩
+    obtain ⟨j, hj⟩ := List.getElem?_of_mem hx
+    exact ⟨j, x, hj, by rw [partOf_nil_parts h, partOf_nil_parts h]⟩
+
+/-- conjunct 5 of `faithful` holds trivially when there is one element list -/
+theorem bindTogether_nil_parts {c : Cfg} (h : c.parts = []) : bindTogether c = true := by
+  unfold bindTogether
+  rw [List.all_eq_true]
+  intro p _
+  split
+  · rw [List.all_eq_true]
+    intro q _
+    split
+    · simp [partOf_nil_parts h]
+    · rfl
+  · rfl
 
 /-! ### `faithful` as propositions -/
 
@@ -193,6 +376,20 @@ structure Faithful (c : Cfg) : Prop where
   argsFresh : ∀ t ∈ c.args, ∀ a ∈ c.items, t ∉ supplied a
   retOk : okTy c c.ret
   consOk : ∀ a ∈ c.items, ∀ t ∈ consumed a, okTy c t
+  /-- conjunct 5: a provider function of a bound implementation type sits in the `Bind`'s element list -/
+  together : ∀ (j x : Nat) impl (m : Nat) f, c.items[j]? = some (.bind x impl) → c.items[m]? = some (.func f) → f.result = impl →
+    partOf c m = partOf c j
+  /-- conjunct 6: a type is supplied at one position only … -/
+  onceIdx : ∀ (i j : Nat) a b t, c.items[i]? = some a → c.items[j]? = some b → t ∈ supplied a → t ∈ supplied b → i = j
+  supNodup : ∀ a ∈ c.items, (supplied a).Nodup
+
+/-- all `Bind`s on one implementation are written in one element list (the list of its constructor) -/
+theorem Faithful.bindSameList {c : Cfg} (F : Faithful c) {i j x y : Nat} {impl : Ty}
+    (hi : c.items[i]? = some (Item.bind x impl)) (hj : c.items[j]? = some (Item.bind y impl)) :
+    partOf c i = partOf c j := by
+  obtain ⟨n, f, _, _, hfr, hfi⟩ := F.bindOk x impl (List.mem_of_getElem? hi)
+  obtain ⟨m, hm⟩ := List.getElem?_of_mem hfi
+  rw [← F.together i x impl m f hi hm hfr, ← F.together j y impl m f hj hm hfr]
 
 theorem structVal_false {c : Cfg} {t : Ty} (h : structVal c t = false) : okTy c t := by
   intro n fs hmem ht
@@ -201,11 +398,61 @@ theorem structVal_false {c : Cfg} {t : Ty} (h : structVal c t = false) : okTy c 
   have := h _ hmem
   simp [ht] at this
 
+theorem nodupTys_nodup : ∀ l : List Ty, nodupTys l = true → l.Nodup := by
+  intro l
+  induction l with
+  | nil => intro _; exact List.nodup_nil
+  | cons a r ih =>
+    intro h
+    simp only [nodupTys, Bool.and_eq_true, Bool.not_eq_true'] at h
+    rw [List.nodup_cons]
+    refine ⟨?_, ih h.2⟩
+    intro hm
+    have := List.contains_iff_mem.2 hm
+    rw [h.1] at this; cases this
+
+theorem pairwise_getElem? {α} {R : α → α → Prop} {l : List α} (h : l.Pairwise R) {i j : Nat} {a b : α}
+    (hi : l[i]? = some a) (hj : l[j]? = some b) (hij : i < j) : R a b := by
+  obtain ⟨hi', rfl⟩ := List.getElem?_eq_some_iff.1 hi
+  obtain ⟨hj', rfl⟩ := List.getElem?_eq_some_iff.1 hj
+  exact List.pairwise_iff_getElem.1 h i j hi' hj' hij
+
+theorem bindTogether_spec {c : Cfg} (h : bindTogether c = true) :
+    ∀ (j x : Nat) impl (m : Nat) f, c.items[j]? = some (.bind x impl) → c.items[m]? = some (.func f) → f.result = impl →
+      partOf c m = partOf c j := by
+  intro j x impl m f hj hm hr
+  unfold bindTogether at h
+  rw [List.all_eq_true] at h
+  have h1 := h (.bind x impl, j) (List.mem_zipIdx_iff_getElem?.2 hj)
+  simp only at h1
+  rw [List.all_eq_true] at h1
+  have h2 := h1 (.func f, m) (List.mem_zipIdx_iff_getElem?.2 hm)
+  simp only [Bool.or_eq_true, Bool.not_eq_true', beq_eq_false_iff_ne, beq_iff_eq] at h2
+  rcases h2 with h2 | h2
+  · exact absurd hr h2
+  · exact h2
+
+theorem listedOnce_spec {c : Cfg} (h : listedOnce c = true) :
+    (∀ (i j : Nat) a b t, c.items[i]? = some a → c.items[j]? = some b → t ∈ supplied a → t ∈ supplied b → i = j) ∧
+    (∀ a ∈ c.items, (supplied a).Nodup) := by
+  unfold listedOnce at h
+  have h1 := nodupTys_nodup _ h
+  rw [List.nodup_iff_pairwise_ne, List.pairwise_flatMap] at h1
+  refine ⟨?_, h1.1⟩
+  intro i j a b t hi hj hta htb
+  rcases Nat.lt_trichotomy i j with hij | hij | hij
+  · exact absurd rfl (pairwise_getElem? h1.2 hi hj hij t hta t htb)
+  · exact hij
+  · exact absurd rfl (pairwise_getElem? h1.2 hj hi hij t htb t hta)
+
 theorem Faithful.of_bool {c : Cfg} (h : faithful c = true) : Faithful c := by
   unfold faithful at h
+  rw [Bool.and_eq_true, Bool.and_eq_true] at h
+  obtain ⟨⟨h, h5⟩, h6⟩ := h
+  obtain ⟨h61, h62⟩ := listedOnce_spec h6
   simp only [Bool.and_eq_true, List.all_eq_true] at h
   obtain ⟨⟨⟨h1, h2⟩, h3⟩, h4⟩ := h
-  refine ⟨?_, ?_, ?_, ?_, ?_, ?_⟩
+  refine ⟨?_, ?_, ?_, ?_, ?_, ?_, bindTogether_spec h5, h61, h62⟩
   · intro i impl hmem
     have := h1 _ hmem
     simp only [itemOk] at this
@@ -249,7 +496,8 @@ theorem kItem_origin {c : Cfg} (F : Faithful c) {ks} (hm : migrate c = some ks) 
       (wireItemSup t it = some w ∨
         ∃ j impl g, it = .bind j impl ∧ t = .iface j ∧ Item.func g ∈ c.items ∧ g.result = impl ∧
           w = (g.name, g.params)) := by
-  obtain ⟨it, hit, l, hl, hkl⟩ := (migrate_mem hm k).1 hk
+  obtain ⟨idx, it, l, hidx, hl, hkl⟩ := (migrate_mem hm k).1 hk
+  have hit : it ∈ c.items := List.mem_of_getElem? hidx
   cases it with
   | func f =>
     simp only [migrateItem] at hl
@@ -265,7 +513,7 @@ theorem kItem_origin {c : Cfg} (F : Faithful c) {ks} (hm : migrate c = some ks) 
       · cases hs
   | bind j impl =>
     obtain ⟨n, f, hn, hf, hfr, hfi⟩ := F.bindOk j impl hit
-    simp only [migrateItem, hn, hf, Option.map_some] at hl
+    rw [migrateItem_bind_first (bind_emits_first hl hkl) hn hf] at hl
     cases hl
     simp only [List.mem_singleton] at hkl; subst hkl
     simp only [kItemSup] at hs
@@ -274,8 +522,14 @@ theorem kItem_origin {c : Cfg} (F : Faithful c) {ks} (hm : migrate c = some ks) 
       rename_i hor
       by_cases hr : f.result = t
       · exact ⟨.func f, hfi, by simp [supplied, hr], Or.inl (by simp [wireItemSup, hr])⟩
-      · have ht : t = .iface j := hor.resolve_left hr
-        exact ⟨_, hit, by simp [supplied, ht], Or.inr ⟨j, impl, f, rfl, ht, hfi, hfr, rfl⟩⟩
+      · have ht := hor.resolve_left hr
+        rw [List.mem_map] at ht
+        obtain ⟨y, hy, rfl⟩ := ht
+        rcases List.mem_cons.1 hy with rfl | hy
+        · exact ⟨_, hit, by simp [supplied], Or.inr ⟨y, impl, f, rfl, rfl, hfi, hfr, rfl⟩⟩
+        · obtain ⟨q, _, hq, _⟩ := mem_laterIfaces.1 hy
+          exact ⟨.bind y impl, List.mem_of_getElem? hq, by simp [supplied],
+            Or.inr ⟨y, impl, f, rfl, rfl, hfi, hfr, rfl⟩⟩
     · cases hs
   | structP n fs =>
     simp only [migrateItem] at hl; cases hl
@@ -312,28 +566,25 @@ theorem kSupplier_of_wire {c : Cfg} (F : Faithful c) {ks} (hm : migrate c = some
     {it : Item} (hit : it ∈ c.items) {v} (hs : wireItemSup t it = some v) : kSupplier ks t = some v := by
   rw [kSupplier_eq]
   apply findSome?_eq_some_of_unique
-  · cases it with
+  · obtain ⟨idx, hidx⟩ := List.getElem?_of_mem hit
+    cases it with
     | func f =>
       simp only [wireItemSup] at hs
       split at hs
       · rename_i hr; cases hs
-        by_cases hb : (boundTypes c.items).contains f.result = true
-        · rw [List.contains_iff_mem] at hb
-          simp only [boundTypes, List.mem_filterMap] at hb
-          obtain ⟨b, hbmem, hbe⟩ := hb
-          cases b with
-          | bind j impl =>
-            simp only [Option.some.injEq] at hbe; subst hbe
-            obtain ⟨n, g, hn, hg, hgr, hgi⟩ := F.bindOk j _ hbmem
-            have : Item.func g = Item.func f :=
-              F.uniq _ hgi _ hit f.result (by simp [supplied, hgr]) (by simp [supplied])
-            cases this
-            refine ⟨.bindProvide j f,
-              (migrate_mem hm _).2 ⟨_, hbmem, [.bindProvide j f], by simp [migrateItem, hn, hg], by simp⟩, ?_⟩
-            simp [kItemSup, hr]
-          | _ => simp at hbe
-        · have hb' : ¬ f.result ∈ boundTypes c.items := fun h => hb (List.contains_iff_mem.2 h)
-          refine ⟨.provide f, (migrate_mem hm _).2 ⟨_, hit, [.provide f], by simp [migrateItem, hb'], by simp⟩, ?_⟩
+        by_cases hb : (boundTypesIn c (partOf c idx)).contains f.result = true
+        · rw [List.contains_iff_mem, mem_boundTypesIn] at hb
+          obtain ⟨jb, j, hbj, _⟩ := hb
+          have hbmem : Item.bind j f.result ∈ c.items := List.mem_of_getElem? hbj
+          obtain ⟨n, g, hn, hg, hgr, hgi⟩ := F.bindOk j _ hbmem
+          have : Item.func g = Item.func f :=
+            F.uniq _ hgi _ hit f.result (by simp [supplied, hgr]) (by simp [supplied])
+          cases this
+          obtain ⟨j0, x0, is, _, hj0, _, hmig, _⟩ := bind_emitted hbj hn hg
+          refine ⟨.bindProvide is f, migrate_mem_intro hm hj0 hmig (by simp), ?_⟩
+          simp [kItemSup, hr]
+        · have hb' : ¬ f.result ∈ boundTypesIn c (partOf c idx) := fun h => hb (List.contains_iff_mem.2 h)
+          refine ⟨.provide f, migrate_mem_intro hm hidx (out := [.provide f]) (by simp [migrateItem, hb']) (by simp), ?_⟩
           simp [kItemSup, hr]
       · cases hs
     | bind => simp [wireItemSup] at hs
@@ -343,7 +594,7 @@ theorem kSupplier_of_wire {c : Cfg} (F : Faithful c) {ks} (hm : migrate c = some
       · rename_i hr; exact absurd hr (hok n fs hit)
       · split at hs
         · rename_i hr; cases hs
-          refine ⟨.provide ⟨mkPtrName n, fs, .ptr n⟩, (migrate_mem hm _).2 ⟨_, hit, _, rfl, by simp⟩, ?_⟩
+          refine ⟨.provide ⟨mkPtrName n, fs, .ptr n⟩, migrate_mem_intro hm hidx rfl (by simp), ?_⟩
           simp [kItemSup, hr]
         · cases hs
     | fieldsOf n pf fs =>
@@ -352,7 +603,7 @@ theorem kSupplier_of_wire {c : Cfg} (F : Faithful c) {ks} (hm : migrate c = some
       split at hs
       · rename_i hr; cases hs
         rw [List.contains_iff_mem] at hr
-        refine ⟨.provide ⟨fieldName, [.ptr n], t⟩, (migrate_mem hm _).2 ⟨_, hit, _, rfl, ?_⟩, ?_⟩
+        refine ⟨.provide ⟨fieldName, [.ptr n], t⟩, migrate_mem_intro hm hidx rfl ?_, ?_⟩
         · exact List.mem_map.2 ⟨t, hr, rfl⟩
         · simp [kItemSup]
       · cases hs
@@ -369,11 +620,14 @@ theorem kSupplier_bind {c : Cfg} (F : Faithful c) {ks} (hm : migrate c = some ks
     ∃ n f, tyName impl = some n ∧ Item.func f ∈ c.items ∧ f.result = impl ∧
       kSupplier ks (.iface i) = some (f.name, f.params) := by
   obtain ⟨n, f, hn, hf, hfr, hfi⟩ := F.bindOk i impl hb
+  obtain ⟨idx, hidx⟩ := List.getElem?_of_mem hb
   refine ⟨n, f, hn, hfi, hfr, ?_⟩
   rw [kSupplier_eq]
   apply findSome?_eq_some_of_unique
-  · exact ⟨.bindProvide i f,
-      (migrate_mem hm _).2 ⟨_, hb, [.bindProvide i f], by simp [migrateItem, hn, hf], by simp⟩, by simp [kItemSup]⟩
+  · obtain ⟨j0, x0, is, _, hj0, _, hmig, hxi⟩ := bind_emitted hidx hn hf
+    refine ⟨.bindProvide is f, migrate_mem_intro hm hj0 hmig (by simp), ?_⟩
+    simp only [kItemSup]
+    rw [if_pos (Or.inr (List.mem_map.2 ⟨i, hxi, rfl⟩))]
   · intro k hk w hw
     obtain ⟨it', hit', hsup', hor⟩ := kItem_origin F hm hk hw
     have : it' = .bind i impl := F.uniq _ hit' _ hb _ hsup' (by simp [supplied])
@@ -522,19 +776,189 @@ theorem migrate_faithful_aux (c : Cfg) (F : Faithful c) (ks : List KItem) (hm : 
           intro p hp
           exact ih fuel (by omega) p (params_ok F hit hs p hp) (NoBot_call hb p hp) (NoMissing_call hmi p hp)
 
+/-! ### the migrated declaration is not ambiguous -/
+
+/-- no two positions of `ks` supply a common type -/
+def KDisjoint (a b : KItem) : Prop := ∀ t, t ∈ kSupplied a → t ∉ kSupplied b
+
+theorem kAmbiguous_false_of_pairwise : ∀ ks : List KItem, ks.Pairwise KDisjoint → kAmbiguous ks = false := by
+  intro ks
+  induction ks with
+  | nil => intro _; rfl
+  | cons a r ih =>
+    intro h
+    rw [List.pairwise_cons] at h
+    rw [kAmbiguous, Bool.or_eq_false_iff]
+    refine ⟨?_, ih h.2⟩
+    rw [List.any_eq_false]
+    intro b hb hany
+    rw [List.any_eq_true] at hany
+    obtain ⟨t, hta, htb⟩ := hany
+    exact h.1 b hb t hta (List.contains_iff_mem.1 htb)
+
+theorem kAmbiguous_false_iff (ks : List KItem) : kAmbiguous ks = false ↔ ks.Pairwise KDisjoint := by
+  refine ⟨?_, kAmbiguous_false_of_pairwise ks⟩
+  induction ks with
+  | nil => intro _; exact List.Pairwise.nil
+  | cons a r ih =>
+    intro h
+    rw [kAmbiguous, Bool.or_eq_false_iff] at h
+    rw [List.pairwise_cons]
+    refine ⟨?_, ih h.2⟩
+    intro b hb t hta htb
+    have := (List.any_eq_false.1 h.1) b hb
+    apply this
+    rw [List.any_eq_true]
+    exact ⟨t, hta, List.contains_iff_mem.2 htb⟩
+
+/-- who supplies, in wire's set, a type supplied by a migrated item: either an item at a position `q ≥ j` — the item the
+    migrated item came from (`q = j`; if that is a provider function, it was not dropped) or, for a nested interface, a later
+    `Bind` on the same implementation in the same element list — or, for the implementation type of a `Bind`, the listed
+    provider function the `Bind` stands for -/
+theorem kItem_owner {c : Cfg} (F : Faithful c) {j : Nat} {it : Item} {out : List KItem} {a : KItem} {t : Ty}
+    (hj : c.items[j]? = some it) (ho : migrateItem c j it = some out) (ha : a ∈ out) (ht : t ∈ kSupplied a) :
+    (∃ q itq, c.items[q]? = some itq ∧ t ∈ supplied itq ∧
+        (∀ f, itq = .func f → f.result ∉ boundTypesIn c (partOf c q)) ∧ j ≤ q ∧
+        (q = j ∨ ∃ x y impl, it = .bind x impl ∧ itq = .bind y impl ∧ partOf c q = partOf c j)) ∨
+    (∃ (x p : Nat) (f : Func), it = .bind x t ∧ c.items[p]? = some (.func f) ∧ f.result = t) := by
+  have hit : it ∈ c.items := List.mem_of_getElem? hj
+  cases it with
+  | func f =>
+    simp only [migrateItem] at ho
+    split at ho
+    · cases ho; cases ha
+    · rename_i hb
+      cases ho
+      simp only [List.mem_singleton] at ha; subst ha
+      simp only [kSupplied, List.mem_singleton] at ht; subst ht
+      refine Or.inl ⟨j, _, hj, by simp [supplied], ?_, Nat.le_refl _, Or.inl rfl⟩
+      intro g hg; cases hg
+      exact fun h => hb (List.contains_iff_mem.2 h)
+  | bind x impl =>
+    obtain ⟨n, f, hn, hf, hfr, hfi⟩ := F.bindOk x impl hit
+    rw [migrateItem_bind_first (bind_emits_first ho ha) hn hf] at ho
+    cases ho
+    simp only [List.mem_singleton] at ha; subst ha
+    simp only [kSupplied, List.mem_cons] at ht
+    rcases ht with ht | ht
+    · obtain ⟨p, hp⟩ := List.getElem?_of_mem hfi
+      subst ht
+      exact Or.inr ⟨x, p, f, by rw [hfr], hp, rfl⟩
+    · have ht' : t ∈ (x :: laterIfaces c j impl).map Ty.iface := by simpa using ht
+      rw [List.mem_map] at ht'
+      obtain ⟨y, hy, rfl⟩ := ht'
+      rcases List.mem_cons.1 hy with rfl | hy
+      · exact Or.inl ⟨j, _, hj, by simp [supplied], (fun g hg => by cases hg), Nat.le_refl _, Or.inl rfl⟩
+      · obtain ⟨q, hlt, hq, hpart⟩ := mem_laterIfaces.1 hy
+        exact Or.inl ⟨q, .bind y impl, hq, by simp [supplied], (fun g hg => by cases hg), Nat.le_of_lt hlt,
+          Or.inr ⟨x, y, impl, rfl, rfl, hpart⟩⟩
+  | structP n fs =>
+    simp only [migrateItem] at ho; cases ho
+    simp only [List.mem_singleton] at ha; subst ha
+    simp only [kSupplied, List.mem_singleton] at ht; subst ht
+    exact Or.inl ⟨j, _, hj, by simp [supplied], (fun g hg => by cases hg), Nat.le_refl _, Or.inl rfl⟩
+  | fieldsOf n pf fs =>
+    simp only [migrateItem] at ho; cases ho
+    simp only [List.mem_map] at ha
+    obtain ⟨ft, hft, rfl⟩ := ha
+    simp only [kSupplied, List.mem_singleton] at ht; subst ht
+    exact Or.inl ⟨j, _, hj, by simpa [supplied] using hft, (fun g hg => by cases hg), Nat.le_refl _, Or.inl rfl⟩
+
+/-- one half of the cross-position argument: `t` owned by the item at `j` (not a dropped provider function), and a `Bind`
+    at `j'` supplying `t` as its implementation type -/
+theorem owner_clash {c : Cfg} (F : Faithful c) {j j' : Nat} {it : Item} {t : Ty} {x p : Nat} {f : Func}
+    (hj : c.items[j]? = some it) (hj' : c.items[j']? = some (.bind x t))
+    (hown : t ∈ supplied it) (hkept : ∀ g, it = .func g → g.result ∉ boundTypesIn c (partOf c j))
+    (hp : c.items[p]? = some (.func f)) (hfr : f.result = t) : False := by
+  have hjp : j = p := F.onceIdx j p it (.func f) t hj hp hown (by simp [supplied, hfr])
+  subst hjp
+  rw [hj] at hp; cases hp
+  have hpart := F.together j' x t j f hj' hj hfr
+  exact hkept f rfl (by rw [hfr]; exact mem_boundTypesIn.2 ⟨j', x, hj', hpart.symm⟩)
+
+theorem migrate_not_ambiguous_aux {c : Cfg} (F : Faithful c) {ks : List KItem} (hm : migrate c = some ks) :
+    ks.Pairwise KDisjoint := by
+  apply migrateFrom_pairwise c KDisjoint c.items 0 ks hm
+  · intro j it out hj ho
+    rw [Nat.zero_add] at ho
+    have hit : it ∈ c.items := List.mem_of_getElem? hj
+    cases it with
+    | func f =>
+      simp only [migrateItem] at ho
+      split at ho <;> cases ho
+      · exact List.Pairwise.nil
+      · exact List.pairwise_singleton _ _
+    | bind x impl =>
+      obtain ⟨n, f, hn, hf, _, _⟩ := F.bindOk x impl hit
+      cases he : hasEarlierBind c j impl with
+      | true => rw [migrateItem_bind_later he] at ho; cases ho; exact List.Pairwise.nil
+      | false => rw [migrateItem_bind_first he hn hf] at ho; cases ho; exact List.pairwise_singleton _ _
+    | structP n fs =>
+      simp only [migrateItem] at ho; cases ho; exact List.pairwise_singleton _ _
+    | fieldsOf n pf fs =>
+      simp only [migrateItem] at ho; cases ho
+      rw [List.pairwise_map]
+      have hnd : fs.Nodup := by simpa [supplied] using F.supNodup _ hit
+      rw [List.nodup_iff_pairwise_ne] at hnd
+      apply hnd.imp
+      intro u v huv t htu htv
+      simp only [kSupplied, List.mem_singleton] at htu htv
+      exact huv (htu.symm.trans htv)
+  · intro j j' it it' out out' hjj hj hj' ho ho' a ha b hb t hta htb
+    rw [Nat.zero_add] at ho ho'
+    rcases kItem_owner F hj ho ha hta with ⟨q, itq, hq, hown, hkept, hle, hwho⟩ | ⟨x, p, f, rfl, hp, hfr⟩
+    · rcases kItem_owner F hj' ho' hb htb with ⟨q', itq', hq', hown', _, hle', hwho'⟩ | ⟨x', p', f', rfl, hp', hfr'⟩
+      · have hqq := F.onceIdx q q' itq itq' t hq hq' hown hown'
+        subst hqq
+        rw [hq] at hq'; cases hq'
+        rcases hwho with rfl | ⟨x, y, impl, rfl, rfl, hpart⟩
+        · omega
+        · rcases hwho' with rfl | ⟨x', y', impl', rfl, hy', hpart'⟩
+          · rw [hq] at hj'; cases hj'
+            exact no_two_emitters hj hjj hpart.symm ho' hb
+          · cases hy'
+            exact no_two_emitters hj hjj (hpart.symm.trans hpart') ho' hb
+      · exact owner_clash F hq hj' hown hkept hp' hfr'
+    · rcases kItem_owner F hj' ho' hb htb with ⟨q', itq', hq', hown', hkept', _, _⟩ | ⟨x', p', f', rfl, hp', hfr'⟩
+      · exact owner_clash F hq' hj hown' hkept' hp hfr
+      · exact no_two_emitters hj hjj (F.bindSameList hj hj') ho' hb
+
+/-- **the migrated declaration of a faithful configuration is not refused as ambiguous** -/
+theorem migrate_not_ambiguous (c : Cfg) (h : faithful c = true) (ks : List KItem) (hm : migrate c = some ks) :
+    kAmbiguous ks = false :=
+  kAmbiguous_false_of_pairwise ks (migrate_not_ambiguous_aux (Faithful.of_bool h) hm)
+
+theorem migrateChecked_of_migrate {c : Cfg} {ks : List KItem} (hm : migrate c = some ks) (ha : kAmbiguous ks = false) :
+    migrateChecked c = some ks := by
+  simp [migrateChecked, hm, ha]
+
+theorem migrateChecked_some {c : Cfg} {ks : List KItem} (h : migrateChecked c = some ks) :
+    migrate c = some ks ∧ kAmbiguous ks = false := by
+  unfold migrateChecked at h
+  split at h
+  · rename_i ks' hm
+    split at h
+    · cases h
+    · rename_i ha
+      cases h
+      exact ⟨hm, by simpa using ha⟩
+  · cases h
+
 /-! ### main theorems -/
 
 /-- on a faithful configuration the migration does not refuse -/
 theorem migrate_faithful_some (c : Cfg) (h : faithful c = true) : (migrate c).isSome := by
   have F := Faithful.of_bool h
-  rw [migrate_eq]
-  apply foldl_migStep_some
-  intro it hit
+  apply migrateFrom_some
+  intro j it hj
+  have hit : it ∈ c.items := List.mem_of_getElem? hj
   cases it with
   | func f => simp only [migrateItem]; split <;> rfl
   | bind i impl =>
     obtain ⟨n, f, hn, hf, _, _⟩ := F.bindOk i impl hit
-    simp [migrateItem, hn, hf]
+    cases he : hasEarlierBind c (0 + j) impl with
+    | true => rw [migrateItem_bind_later he]; rfl
+    | false => rw [migrateItem_bind_first he hn hf]; rfl
   | structP n fs => rfl
   | fieldsOf n pf fs => rfl
 
@@ -553,9 +977,14 @@ theorem migrate_faithful_ret (c : Cfg) (h : faithful c = true) (ks : List KItem)
 
 /-! ### in the vocabulary of `C13_statement` -/
 
-theorem migratedEval_of_migrate {c : Cfg} {ks : List KItem} (hm : migrate c = some ks) (fuel : Nat) :
-    migratedEval c fuel = kEval ks fuel c.ret := by
-  simp [migratedEval, hm]
+theorem migratedEval_of_migrate {c : Cfg} {ks : List KItem} (hm : migrate c = some ks) (ha : kAmbiguous ks = false)
+    (fuel : Nat) : migratedEval c fuel = kEval ks fuel c.ret := by
+  simp [migratedEval, migrateChecked_of_migrate hm ha]
+
+/-- on a faithful configuration the migration is not refused — neither by `kessoku migrate` nor, as ambiguous, by kessoku -/
+theorem migrateChecked_faithful_some (c : Cfg) (h : faithful c = true) : (migrateChecked c).isSome := by
+  obtain ⟨ks, hm⟩ := Option.isSome_iff_exists.1 (migrate_faithful_some c h)
+  rw [migrateChecked_of_migrate hm (migrate_not_ambiguous c h ks hm)]; rfl
 
 /-- on a faithful configuration the migration succeeds and, whenever wire's own solver produces a complete term
     (enough fuel, nothing missing), the migrated injector computes the same term -/
@@ -567,7 +996,7 @@ theorem migratedEval_faithful (c : Cfg) (h : faithful c = true) :
   refine ⟨hs, ?_⟩
   obtain ⟨ks, hm⟩ := Option.isSome_iff_exists.1 hs
   intro fuel hb hmi
-  rw [migratedEval_of_migrate hm]
+  rw [migratedEval_of_migrate hm (migrate_not_ambiguous c h ks hm)]
   exact migrate_faithful_ret c h ks hm fuel hb hmi
 
 mutual
